@@ -124,8 +124,10 @@ class Ctx:
         if self.tier == "thorough":
             return thorough
         if self.boost and isinstance(quick, int) and isinstance(thorough, int) and not isinstance(quick, bool):
-            return max(quick, min(thorough, quick * 4))      # a second tie is not in force: search up to 4x harder than the quick tier
-        return thorough if self.boost else quick
+            # a second tie is not in force: count-like parameters (thorough >= 4 x quick) are multiplied by 4; depth-like parameters (sequence
+            # lengths, enumeration depths: thorough < 4 x quick) keep their quick value — their cost grows exponentially
+            return quick * 4 if thorough >= quick * 4 else quick
+        return quick
 
 
 def load_known():
